@@ -144,3 +144,8 @@ CHECKS.update({
     "C13": ("6/C13", "6 deterministic workflows (3-step chain, fan-out/fan-in with collect_events, zero-delay retries, catch_error recovery, waiter + external response without / with requirements) on the real server stack (ServerRuntimeDecorator(IdleReleaseDecorator(PersistenceDecorator(BasicRuntime))) + _WorkflowService) over MemoryWorkflowStore (instance survives) and SqliteWorkflowStore (file survives); the process is stopped right after the k-th persisted tick for every k up to the length of the log, a fresh stack resumes through PersistenceDecorator.launch(), and all schedules of both phases within the deviation bound are explored; the resumed handler must end completed with the uninterrupted result and a log that already contains the terminal tick must be finalized without running a step.",
             "Four genuine root causes are recorded as known findings with root-cause witnesses (step output not yet queued, sent event not yet persisted, spuriously idle-flagged handler skipped at startup, non-matching response replayed against a requirement-less waiter); fixes 31a2af2 and bcfdba2 repaired two further defects this check found. Any violation outside those contexts alarms.", CRASH_TECH),
 })
+
+CHECKS.update({
+    "C15": ("6/C15", "9 outcome programs (success, two workers racing to stop, step failure without / after retries, @catch_error handler that recovers / fails itself, workflow timeout, cancel_handler at every quiescent point, cancel racing the timeout) on the real server stack over MemoryWorkflowStore and SqliteWorkflowStore x 0-2 transient failures of handler-record writes and of event-log writes at explorer-chosen attempts (inside the [0.5, 3] s backoff budget) x all schedules within the deviation bound incl. timer firings; every status written is logged (terminal never followed by running) and the final handler record is compared with how the engine's run task actually ended.",
+            "Store faults are bounded to what _retry_store_write is documented to absorb (<= 2 consecutive); a store that keeps failing is outside the property. The idle-release timer never fires here (C26/C36). Fixes f78db87 and 7a6f378 repaired the two unretried store writes this check found.", ENGINE_TECH.replace("the real control loop", "the real server stack")),
+})
